@@ -509,6 +509,7 @@ type enOp struct {
 
 	call, ret uint64
 	faulted   bool // a shard call of this operation was failed by the simulator
+	tombSeen  bool // (reads) a tombstone broadcast of the object was in flight when the read started
 	flag2     bool // some shard was not read-write while the operation ran
 	seen      []string
 }
